@@ -49,6 +49,8 @@ import FluteModel.Lemmas.DrainObjInst
       decompressors, see the examples); `Full.params0` is only the instance the `recv` driver runs.  What stays outside:
       the `Codec` functions are TOTAL by type, so a PANIC inside a third-party codec (review H1/H2: raptorq base.rs:137,
       decoder.rs:400, repaired in /repo by range checks) is not expressible - findings / repairs, not theorems;
+    * `Full.entryOf` / `Full.fdtEntry0` hand the object `md5 := none` (stated in RecvFull.lean): the Content-MD5 comparison of a
+      completed object is not part of the composed session model (totality is unaffected: `tinv_attachFdt` holds for every entry);
     * `MultiReceiver::push` on top: agent tsi's `Flute.Props.C04.Multi.multi_push_total` gives the session-level statement for any
       `ObjIface` (instantiated below); the object-fault invariant is threaded through the MultiRecv table in Props/C04MultiWhole.lean.
 -/
